@@ -555,6 +555,13 @@ class Path:
         self.solver.set("timeout", explorer.branch_timeout_ms)
         for f in self.facts:
             self.solver.add(f)
+        # light solver: requires + path condition only (no function facts); an `unsat` here is
+        # an `unsat` with more hypotheses as well
+        self.known = {}
+        self.light = z3.Solver()
+        self.light.set("timeout", 700)
+        for f in PI_FACTS:
+            self.light.add(f)
 
     def register_app(self, name, ts, app):
         key = (name,) + tuple(t.get_id() for t in ts)
@@ -565,9 +572,16 @@ class Path:
             self.facts.append(f)
             self.solver.add(f)
 
+    def _remember(self, f):
+        for c in (f.children() if z3.is_and(f) else [f]):
+            c = z3.simplify(c)
+            self.known[c.get_id()] = c      # value keeps the term (and its id) alive
+
     def add_assume(self, f):
         self.assume.append(f)
         self.solver.add(f)
+        self.light.add(f)
+        self._remember(f)
 
     def branch(self, cond):
         s = z3.simplify(cond)
@@ -581,8 +595,14 @@ class Path:
         else:
             if i >= self.explorer.max_depth:
                 raise PathLimit("more than %d symbolic branch points on one path" % i)
-            can_t = self._feasible(s)
-            can_f = self._feasible(z3.Not(s))
+            ns = z3.simplify(z3.Not(s))
+            if s.get_id() in self.known:          # already a hypothesis of this path
+                can_t, can_f = True, False
+            elif ns.get_id() in self.known:
+                can_t, can_f = False, True
+            else:
+                can_t = self._feasible(s)
+                can_f = self._feasible(ns)
             if can_t and can_f:
                 d = True
                 self.explorer.push(self.decisions + [False])
@@ -598,9 +618,17 @@ class Path:
         lit = s if d else z3.Not(s)
         self.pc.append(lit)
         self.solver.add(lit)
+        self.light.add(lit)
+        self._remember(lit)
         return d
 
     def _feasible(self, lit):
+        self.light.push()
+        self.light.add(lit)
+        r0 = self.light.check()
+        self.light.pop()
+        if r0 == z3.unsat:
+            return False
         self.solver.push()
         self.solver.add(lit)
         r = self.solver.check()
@@ -681,6 +709,15 @@ class _MathSym:
     def min(self, a, b): return self.ite(wrap(a) <= b, a, b)
 
 
+def _eq_term(x, y):
+    if x.eq(y):
+        return z3.BoolVal(True)
+    d = z3.simplify(x - y)
+    if z3.is_rational_value(d) and d.numerator_as_long() == 0:
+        return z3.BoolVal(True)      # syntactically equal up to arithmetic normalisation
+    return x == y
+
+
 class SymCtx:
     mode = "sym"
 
@@ -697,6 +734,10 @@ class SymCtx:
     def reals(self, name, n, **kw):
         return [self.real("%s%d" % (name, i), **kw) for i in range(n)]
 
+    def integer(self, name, lo=0, hi=1000):
+        """an integer-valued input (e.g. a seed): symbolic real here, int natively"""
+        return self.real(name, lo=lo, hi=hi, integer=True)
+
     def const(self, x):
         return wrap(x)
 
@@ -704,7 +745,7 @@ class SymCtx:
     def _f(self, x):
         return fbool(x)
 
-    def eq(self, a, b): return self._rel(a, b, lambda x, y: x == y)
+    def eq(self, a, b): return self._rel(a, b, _eq_term)
     def le(self, a, b): return self._rel(a, b, lambda x, y: x <= y)
     def lt(self, a, b): return self._rel(a, b, lambda x, y: x < y)
     def ge(self, a, b): return self._rel(a, b, lambda x, y: x >= y)
@@ -816,6 +857,9 @@ class ConcCtx:
 
     def reals(self, name, n, **kw):
         return [self.real("%s%d" % (name, i)) for i in range(n)]
+
+    def integer(self, name, lo=0, hi=1000):
+        return int(round(float(self.values[name])))
 
     def const(self, x):
         return x
@@ -959,6 +1003,20 @@ def _sh_full(shape, fill_value, dtype=None, **kw):
     return _np.full(shape, fill_value, dtype=dtype, **kw)
 
 
+def _sh_full_like(x, fill_value, dtype=None, **kw):
+    if symbolic_active() and (is_sym(x) or is_sym(fill_value) or
+                              (isinstance(x, _np.ndarray) and x.dtype == object)) \
+            and (dtype is None or _floaty(dtype)):
+        out = _np.empty(_np.shape(x), dtype=object)
+        fin = is_sym(fill_value) or bool(_np.isfinite(fill_value))
+        fv = wrap(fill_value) if fin else float(fill_value)   # nan / inf stay plain floats
+        flat = out.reshape(-1)
+        for i in range(flat.size):
+            flat[i] = fv
+        return out
+    return _np.full_like(x, fill_value, dtype=dtype, **kw)
+
+
 def _sh_eye(n, *a, **kw):
     dtype = kw.get("dtype", None)
     if symbolic_active() and _floaty(dtype) and not a:
@@ -1041,6 +1099,8 @@ def _sh_isclose(a, b, rtol=1.0e-5, atol=1.0e-8, equal_nan=False):
     if symbolic_active() and (is_sym(a) or is_sym(b)):
         def one(u, v):
             u, v = wrap(u), wrap(v)
+            if _num(u.t - v.t) == 0 and atol >= 0 and rtol >= 0:
+                return True          # syntactically the same value: close for any tolerance
             return abs(u - v) <= atol + rtol * abs(v)
         return _forked_bools(_elementwise(one, a, b))
     return _np.isclose(a, b, rtol=rtol, atol=atol, equal_nan=equal_nan)
@@ -1111,6 +1171,7 @@ _NP_OVERRIDES = {
     "ones": _mk_filled(_np.ones, 1),
     "empty": _mk_filled(_np.empty, 0),
     "full": _sh_full,
+    "full_like": _sh_full_like,
     "eye": _sh_eye,
     "zeros_like": _mk_like(_np.zeros_like, 0),
     "ones_like": _mk_like(_np.ones_like, 1),
